@@ -262,6 +262,33 @@ func init() {
 			}
 			return Tuple{zt, Iface{}}, true
 		},
+		"crypto/ed25519.Sign": func(in *Interp, fr *frame, a []Value) (Value, bool) {
+			priv, msg := a[0].(SliceV), a[1].(SliceV)
+			if priv.Len != 64 {
+				in.goPanic("ed25519: bad private key length: %d", priv.Len)
+			}
+			pub := SliceV{B: priv.B, Off: priv.Off + 32, Len: 32, Cap: 32}
+			return in.edToken(pub, msg), true
+		},
+		"crypto/ed25519.Verify": func(in *Interp, fr *frame, a []Value) (Value, bool) {
+			pub, msg, sig := a[0].(SliceV), a[1].(SliceV), a[2].(SliceV)
+			if pub.Len != 32 {
+				in.goPanic("ed25519: bad public key length: %d", pub.Len)
+			}
+			want := in.edToken(pub, msg)
+			if want.Len != sig.Len {
+				return in.tf.F, true
+			}
+			r := in.tf.T
+			for i := 0; i < sig.Len; i++ {
+				r = in.tf.And(r, in.tf.Eq(want.B.E[i].(IntV).T, sig.B.E[sig.Off+i].(IntV).T))
+			}
+			return r, true
+		},
+		"crypto/elliptic.P224": func(in *Interp, fr *frame, a []Value) (Value, bool) { return in.curveModel(224), true },
+		"crypto/elliptic.P256": func(in *Interp, fr *frame, a []Value) (Value, bool) { return in.curveModel(256), true },
+		"crypto/elliptic.P384": func(in *Interp, fr *frame, a []Value) (Value, bool) { return in.curveModel(384), true },
+		"crypto/elliptic.P521": func(in *Interp, fr *frame, a []Value) (Value, bool) { return in.curveModel(521), true },
 		"io.ReadAll": func(in *Interp, _ *frame, a []Value) (Value, bool) {
 			r := a[0].(Iface)
 			if p, ok := r.V.(PtrV); ok && p.R != nil {
@@ -274,22 +301,41 @@ func init() {
 	}
 }
 
-func (in *Interp) b64enc(v Value) *base64.Encoding {
-	p := v.(PtrV)
-	if c, ok := p.R.(*Cell); ok && c.Glob != nil {
-		switch c.Glob.Name() {
-		case "StdEncoding":
-			return base64.StdEncoding
-		case "URLEncoding":
-			return base64.URLEncoding
-		case "RawStdEncoding":
-			return base64.RawStdEncoding
-		case "RawURLEncoding":
-			return base64.RawURLEncoding
+// edToken: ideal Ed25519 — the signature of msg under the key pair with public
+// half pub is the unique token "EDSIG|hex(pub)|msg".
+func (in *Interp) edToken(pub, msg SliceV) SliceV {
+	tf := in.tf
+	var bs []Value
+	add := func(s string) {
+		for i := 0; i < len(s); i++ {
+			bs = append(bs, IntV{tf.BV(8, uint64(s[i]))})
 		}
 	}
-	if o, ok := p.R.Get().(Opaque); ok {
-		return o.Obj.(*base64.Encoding)
+	add("EDSIG|")
+	for i := 0; i < pub.Len; i++ {
+		t := pub.B.E[pub.Off+i].(IntV).T
+		if !t.IsConst() {
+			in.unsupported("ed25519 model: symbolic public key bytes")
+		}
+		add(fmt.Sprintf("%02x", t.Val))
+	}
+	add("|")
+	for i := 0; i < msg.Len; i++ {
+		bs = append(bs, msg.B.E[msg.Off+i])
+	}
+	return SliceV{B: &Backing{E: bs}, Len: len(bs), Cap: len(bs)}
+}
+
+func (in *Interp) curveModel(bits int) Value {
+	return Iface{T: in.W.emptyStructT, V: Opaque{Kind: "curve", Obj: bits}}
+}
+
+func (in *Interp) b64enc(v Value) *base64.Encoding {
+	p, ok := v.(PtrV)
+	if ok && p.R != nil {
+		if o, ok := p.R.Get().(Opaque); ok && o.Kind == "b64" {
+			return o.Obj.(*base64.Encoding)
+		}
 	}
 	in.unsupported("unknown base64 encoding object")
 	return nil
@@ -480,6 +526,20 @@ func (in *Interp) sprintfModel(format *Str, args SliceV) (*Str, bool) {
 				}
 				opts = []combo{{tf.T, []interface{}{sext(x.T.Val, x.T.W)}}}
 			case SliceV:
+				if x.Len > 0 {
+					if _, isByte := x.B.E[x.Off].(IntV); isByte {
+						bs := make([]byte, x.Len)
+						for k := 0; k < x.Len; k++ {
+							t := x.B.E[x.Off+k].(IntV).T
+							if !t.IsConst() {
+								return nil, false
+							}
+							bs[k] = byte(t.Val)
+						}
+						opts = []combo{{tf.T, []interface{}{bs}}}
+						break
+					}
+				}
 				var el []string
 				for k := 0; k < x.Len; k++ {
 					s, ok := x.B.E[x.Off+k].(*Str)
@@ -814,6 +874,18 @@ func (in *Interp) opaqueMethod(fr *frame, recv Iface, method string, args []Valu
 				}
 			}
 			return sf
+		}
+	case "curve":
+		if method == "Params" {
+			cp := in.W.ssaPkgs["crypto/elliptic"].Type("CurveParams").Type()
+			sv := in.zero(cp).(*StructV)
+			st := cp.Underlying().(*types.Struct)
+			for k := 0; k < st.NumFields(); k++ {
+				if st.Field(k).Name() == "BitSize" {
+					sv.F[k] = IntV{in.tf.BV(64, uint64(o.Obj.(int)))}
+				}
+			}
+			return PtrV{in.newCell(sv)}
 		}
 	case "context":
 		switch method {
